@@ -253,7 +253,10 @@ class Server:
                                 resp = {"error": "Daemon crashed!\n" + "".join(tb)}
                                 resp.update(self._response_metadata())
                                 resp["final"] = True
-                                send(server, resp)
+                                try:
+                                    send(server, resp)
+                                except OSError:
+                                    pass  # Maybe the client hung up
                                 raise
                     resp["final"] = True
                     try:
